@@ -711,3 +711,119 @@ pub fn render_tokens(g: &Grammar, w: &[usize], rng: &mut Rng, varied_ws: bool) -
     }
     s
 }
+
+// ------------------------------------------------------------------------------------------
+// LR templates: classic LALR(1) building blocks (left-recursive lists, precedence levels) and
+// classic non-LALR(1) grammars, with random terminals.
+// ------------------------------------------------------------------------------------------
+
+fn t(i: usize) -> Factor {
+    Factor::T(i, AstCtl::default())
+}
+fn nt(n: &str) -> Factor {
+    Factor::N(n.to_string(), AstCtl::default())
+}
+
+/// conflict-free by construction (modulo generator slips - parol's verdict decides)
+pub fn gen_lr_template(rng: &mut Rng) -> Grammar {
+    let mut g = Grammar::new("S", GType::LALR);
+    g.terms = gen_terms(rng, Terms::Letters, 8);
+    let mut rules: Vec<Rule> = vec![];
+    match rng.below(5) {
+        0 => {
+            // expression grammar with 1-3 precedence levels
+            let levels = rng.range(1, 3);
+            let names = ["E", "T", "F", "P"];
+            rules.push(Rule { name: "S".into(), alts: vec![vec![nt("E")]] });
+            for l in 0..levels {
+                let me = names[l];
+                let next = names[l + 1];
+                let left = rng.chance(2, 3);
+                let rec = if left { vec![nt(me), t(l), nt(next)] } else { vec![nt(next), t(l), nt(me)] };
+                let mut alts = vec![rec, vec![nt(next)]];
+                if rng.chance(1, 3) {
+                    alts.insert(1, if left { vec![nt(me), t(l + 4), nt(next)] } else { vec![nt(next), t(l + 4), nt(me)] });
+                }
+                rules.push(Rule { name: me.into(), alts });
+            }
+            let atom = names[levels];
+            let mut alts = vec![vec![t(3)]];
+            if rng.chance(2, 3) {
+                alts.push(vec![t(6), nt("E"), t(7)]);
+            }
+            rules.push(Rule { name: atom.into(), alts });
+        }
+        1 => {
+            // left-recursive list with separator, optional trailing part
+            let sep = rng.chance(1, 2);
+            let mut rec = vec![nt("L")];
+            if sep {
+                rec.push(t(0));
+            }
+            rec.push(nt("I"));
+            rules.push(Rule { name: "S".into(), alts: vec![vec![t(5), nt("L"), t(6)]] });
+            rules.push(Rule { name: "L".into(), alts: vec![rec, vec![nt("I")]] });
+            let mut ialts = vec![vec![t(1)], vec![t(2), Factor::Opt(vec![vec![t(3)]])]];
+            if rng.chance(1, 2) {
+                ialts.push(vec![t(5), nt("L"), t(6)]);
+            }
+            rules.push(Rule { name: "I".into(), alts: ialts });
+        }
+        2 => {
+            // recursive start symbol: S: a [S] ; / S: S a | b ; / S: ( S ) S | ;
+            match rng.below(3) {
+                0 => rules.push(Rule { name: "S".into(), alts: vec![vec![t(0), Factor::Opt(vec![vec![nt("S")]])]] }),
+                1 => rules.push(Rule { name: "S".into(), alts: vec![vec![nt("S"), t(0)], vec![t(1)]] }),
+                _ => rules.push(Rule { name: "S".into(), alts: vec![vec![t(0), nt("S"), t(1), nt("S")], vec![]] }),
+            }
+        }
+        3 => {
+            // nullable left-recursive repetition and EBNF
+            rules.push(Rule { name: "S".into(), alts: vec![vec![nt("A"), Factor::Rep(vec![vec![t(0), nt("A")]]), Factor::Opt(vec![vec![t(1)]])]] });
+            rules.push(Rule { name: "A".into(), alts: vec![vec![nt("A"), t(2)], vec![t(3)], vec![t(4), nt("S"), t(5)]] });
+        }
+        _ => {
+            // statements
+            rules.push(Rule { name: "S".into(), alts: vec![vec![nt("S"), nt("St")], vec![nt("St")]] });
+            rules.push(Rule { name: "St".into(), alts: vec![vec![t(0), t(1), nt("Ex"), t(2)], vec![t(3), nt("S"), t(4)]] });
+            rules.push(Rule { name: "Ex".into(), alts: vec![vec![nt("Ex"), t(5), t(0)], vec![t(0)]] });
+        }
+    }
+    g.rules = rules;
+    g
+}
+
+/// classic grammars that are not LALR(1)
+pub fn gen_non_lalr_template(rng: &mut Rng) -> Grammar {
+    let mut g = Grammar::new("S", GType::LALR);
+    g.terms = gen_terms(rng, Terms::Letters, 8);
+    let rules = match rng.below(5) {
+        0 => vec![
+            // dangling else
+            Rule { name: "S".into(), alts: vec![vec![t(0), nt("S")], vec![t(0), nt("S"), t(1), nt("S")], vec![t(2)]] },
+        ],
+        1 => vec![
+            // ambiguous expression
+            Rule { name: "S".into(), alts: vec![vec![nt("E")]] },
+            Rule { name: "E".into(), alts: vec![vec![nt("E"), t(0), nt("E")], vec![t(1)]] },
+        ],
+        2 => vec![
+            // LR(1) but not LALR(1)
+            Rule { name: "S".into(), alts: vec![vec![t(0), nt("A"), t(3)], vec![t(1), nt("B"), t(3)], vec![t(0), nt("B"), t(4)], vec![t(1), nt("A"), t(4)]] },
+            Rule { name: "A".into(), alts: vec![vec![t(2)]] },
+            Rule { name: "B".into(), alts: vec![vec![t(2)]] },
+        ],
+        3 => vec![
+            // reduce/reduce on shared handle
+            Rule { name: "S".into(), alts: vec![vec![nt("A"), t(0)], vec![nt("B"), t(0)]] },
+            Rule { name: "A".into(), alts: vec![vec![t(1)]] },
+            Rule { name: "B".into(), alts: vec![vec![t(1)]] },
+        ],
+        _ => vec![
+            // repetition of an optional (infinitely ambiguous)
+            Rule { name: "S".into(), alts: vec![vec![t(0), Factor::Rep(vec![vec![Factor::Opt(vec![vec![t(1)]])]])]] },
+        ],
+    };
+    g.rules = rules;
+    g
+}
